@@ -4,7 +4,7 @@ Decided statically (DESIGN §4 C12): publication order status -> flag in every c
 memory orderings of the flag, poll() shape (register waker / will_wake, waker lock held at the flag load,
 status read only under the flag's true edge), wake after flag, constructor pairing, who may complete.
 """
-from core import (subst_params, bool_branch, enum_branch, variant_edges, is_call_to, root_calls, field_path, mentions,
+from core import (subst_params, strip_site, bool_branch, enum_branch, variant_edges, is_call_to, root_calls, field_path, mentions,
                   subexprs, fmt, const_of)
 
 WITNESSES = ['W4DonePrivate']
@@ -175,23 +175,24 @@ def run(ctx):
         slocks = [b for b, t in f.calls_to("Mutex::<R, T>::lock") if is_field_of(f.op_origin(t["args"][0]), STATUS)]
         ctx.check(bool(slocks) and all(f.edge_dominates((sb, tt), b) for b in slocks), "R12.3", "%s|status-read-under-true-edge" % key,
                   "the status is read only after the flag was observed true", f.where(lbb))
-        # return values
+        # return values, per path: Ready(x) only with the flag observed true and x read from the status mutex; Pending only
+        # with the flag observed false
         readys = pendings = 0
-        for b in sorted(f.live_blocks()):
-            for i, s in enumerate(f.blocks[b]["stmts"]):
-                if s["k"] == "assign" and s["place"]["l"] == 0 and not s["place"]["p"]:
-                    e = f.origin_rvalue(s["rv"])
-                    if e[0] == "agg" and e[2] == "Ready":
-                        readys += 1
-                        val = e[3][0][1]
-                        ctx.check(lock_of_field(val, STATUS) and f.edge_dominates((sb, tt), b), "R12.3", "%s|ready-value-from-status" % key,
-                                  "Ready(x): x is read from the status mutex under the flag's true edge", f.where(b, i), fmt(val))
-                    elif e[0] == "agg" and e[2] == "Pending":
-                        pendings += 1
-                        ctx.check(f.edge_dominates((sb, ft), b), "R12.3", "%s|pending-only-when-flag-false" % key,
-                                  "Poll::Pending is returned only when the flag was observed false", f.where(b, i))
-                    else:
-                        ctx.bad("R12.3", "%s|return-shape" % key, "poll returns Ready(status) or Pending only", f.where(b, i), fmt(e))
+        lres = strip_site(f.origin_call(lbb, lt))
+        for p in spaths:
+            fl = [a for a in p.atoms if a[0] == "bool" and strip_site(a[1]) == lres]
+            r = p.ret
+            if r[0] == "agg" and r[2] == "Ready":
+                readys += 1
+                val = r[3][0][1]
+                ctx.check(lock_of_field(val, STATUS) and bool(fl) and fl[0][2], "R12.3", "%s|ready-value-from-status" % key,
+                          "Ready(x): x is read from the status mutex under the flag's true edge", f.where(), fmt(val))
+            elif r[0] == "agg" and r[2] == "Pending":
+                pendings += 1
+                ctx.check(bool(fl) and not fl[0][2], "R12.3", "%s|pending-only-when-flag-false" % key,
+                          "Poll::Pending is returned only when the flag was observed false", f.where())
+            else:
+                ctx.bad("R12.3", "%s|return-shape" % key, "poll returns Ready(status) or Pending only", f.where(), fmt(r)[:100])
         ctx.check(readys >= 1 and pendings >= 1, "R12.3", "%s|both-outcomes" % key, "poll has a Ready and a Pending outcome", f.where())
 
     # ---- constructors: Pending <=> flag false --------------------------------------------------
